@@ -31,15 +31,15 @@ func init() {
 	})
 }
 
-func runDates(d, m, y, T int) (*MOut, error) {
+func runDates(c *core.Ctx, d, m, y, T int) (*MOut, error) {
 	run := &MRun{Model: "DateGenerator", N: 1, T: T}
 	run.Sets = []PSet{{{float64(d)}, {float64(m)}, {float64(y)}}}
 	run.Inputs = [][][]float64{{make([]float64, T)}}
-	return Execute(run)
+	return ExecuteFor(c, run)
 }
 
 func checkDates(c *core.Ctx, d, m, y, T int) {
-	out, err := runDates(d, m, y, T)
+	out, err := runDates(c, d, m, y, T)
 	if err != nil {
 		c.Violate("prepare", "DateGenerator", err.Error())
 		return
